@@ -11,7 +11,7 @@ import SleapVerif.Gen.TranslatedGeometry
 * `cropsize pad stride minCrop scaling <ninst> (<npts> (x y)*)*`  (minCrop −1 = None, `nan` ok)
                                    → `ok size`
 * `chain h w <nops> op* <npts> (x y)*` with ops `sm mh mw | rs sn sd | pad s | crop cx cy bh bw |
-  recrop bh bw | aug a b c d e f | int`
+  recrop bh bw | aug a b c d e f | auga a b c d e f | int`
       → `ok H W <nsizes> (h w)* <npts> (contentx contenty kpx kpy)* cx cy`  (sizes oldest first)
 -/
 open SleapVerif SleapVerif.Proto SleapVerif.Geometry
@@ -30,6 +30,9 @@ def pOp : P (Op Rat) := do
   | "aug" => do
       let a ← rat; let b ← rat; let c ← rat; let d ← rat; let e ← rat; let f ← rat
       pure (.aug ⟨a, b, c, d, e, f⟩)
+  | "auga" => do
+      let a ← rat; let b ← rat; let c ← rat; let d ← rat; let e ← rat; let f ← rat
+      pure (.augAligned ⟨a, b, c, d, e, f⟩)
   | "int" => pure .intensity
   | _ => failure
 
